@@ -148,12 +148,10 @@ macro_rules! fmt_invalid_digit {
             } else if is_suffix && !$iter.is_buffer_empty() {
                 // Haven't finished parsing, so we're going to call
                 // `invalid_digit!`. Need to ensure we include the
-                // base suffix in that.
-
-                // SAFETY: safe since the iterator is not empty, as checked
-                // in `$iter.is_buffer_empty()`. Adding in the check hopefully
-                // will be elided since it's a known constant.
-                unsafe { $iter.step_unchecked() };
+                // base suffix in that: the invalid digit is the byte
+                // after it. Do not step the iterator: the next byte can
+                // be a digit separator, which must never be stepped over.
+                $invalid_digit!($value, $iter.cursor() + 1, $iter.current_count())
             }
         }
         // Might have handled our base-prefix here.
